@@ -103,8 +103,8 @@ theorem Rel2.mem_right {α β : Type} {R : α → β → Prop} {as : List α} {b
 
 /-- `o` is justified by the messages received so far: client messages `cm`, server messages `sm` -/
 def OutFrom (c : Cfg) (cm sm : List Msg) : Out → Prop
-  | .toServer m w => m ∈ cm ∧ ∃ b, pack c.I m = some b ∧ w = wireOf c.tcp b
-  | .toClient m w => (m ∈ sm ∨ ∃ q ∈ cm, m = servfail q) ∧ ∃ b, pack c.I m = some b ∧ w = wireOf c.tcp b
+  | .toServer m w => m ∈ cm ∧ ∃ b, pack c.I m = some b ∧ wireOf? c.tcp b = some w
+  | .toClient m w => (m ∈ sm ∨ ∃ q ∈ cm, m = servfail q) ∧ ∃ b, pack c.I m = some b ∧ wireOf? c.tcp b = some w
   | _ => True
 
 theorem OutFrom.mono {c : Cfg} {cm sm cm' sm' : List Msg} (h1 : ∀ m ∈ cm, m ∈ cm') (h2 : ∀ m ∈ sm, m ∈ sm') {o : Out}
@@ -128,17 +128,26 @@ theorem consFrom {c : Cfg} {cm sm : List Msg} {l : List Out} {o : Out} (ho : Out
   · exact hl x hx
 
 theorem sendServer_acts (c : Cfg) (σ : Core) (m : Msg) : (sendServer c σ m).1.acts = σ.acts := by
-  unfold sendServer; cases pack c.I m <;> simp [crashed]
+  unfold sendServer
+  cases hp : pack c.I m with
+  | none => simp [crashed]
+  | some b => cases hw : wireOf? c.tcp b <;> simp [crashed, hw]
 
 theorem sendServer_outs (c : Cfg) (σ : Core) (m : Msg) (cm sm : List Msg) (hm : m ∈ cm) :
     ∀ o ∈ (sendServer c σ m).2, OutFrom c cm sm o := by
   unfold sendServer
   cases hp : pack c.I m with
   | none => simp [OutFrom]
-  | some b => simp [OutFrom, hm, hp]
+  | some b =>
+    cases hw : wireOf? c.tcp b with
+    | none => simp only [hw]; simp [OutFrom]
+    | some w => simp only [hw]; simp [OutFrom, hm, hp, hw]
 
 theorem sendClient_acts (c : Cfg) (σ : Core) (m : Msg) : (sendClient c σ m).1.acts = σ.acts := by
-  unfold sendClient; cases pack c.I m <;> simp [crashed]
+  unfold sendClient
+  cases hp : pack c.I m with
+  | none => simp [crashed]
+  | some b => cases hw : wireOf? c.tcp b <;> simp [crashed, hw]
 
 theorem sendClient_outs (c : Cfg) (σ : Core) (m : Msg) (cm sm : List Msg) (hm : Just cm sm m) :
     ∀ o ∈ (sendClient c σ m).2, OutFrom c cm sm o := by
@@ -146,8 +155,11 @@ theorem sendClient_outs (c : Cfg) (σ : Core) (m : Msg) (cm sm : List Msg) (hm :
   cases hp : pack c.I m with
   | none => simp [OutFrom]
   | some b =>
-    simp only [List.mem_singleton, forall_eq, OutFrom]
-    exact ⟨hm, b, hp, rfl⟩
+    cases hw : wireOf? c.tcp b with
+    | none => simp only [hw]; simp [OutFrom]
+    | some w =>
+      simp only [hw, List.mem_singleton, forall_eq, OutFrom]
+      exact ⟨hm, b, hp, hw⟩
 
 theorem popAct_nil (σ : Core) (h : σ.acts = []) : popAct σ = (.pass, σ) := by
   unfold popAct; rw [h]
@@ -264,12 +276,12 @@ def recvRun (c : Cfg) : State → List Ev → List Bytes × List Bytes
 
 /-- what the property demands of one output, given the frames received from the client (`fc`) and the server (`fs`) -/
 def SentOk (c : Cfg) (fc fs : List Bytes) : Out → Prop
-  | .toServer m w => ∃ b ∈ fc, unpack c.I b = some m ∧ ∃ b', pack c.I m = some b' ∧ w = wireOf c.tcp b' ∧
+  | .toServer m w => ∃ b ∈ fc, unpack c.I b = some m ∧ ∃ b', pack c.I m = some b' ∧ wireOf? c.tcp b' = some w ∧
       ∀ d, DnsRef.decode b = some d → DnsRef.decode b' = some d
   | .toClient m w =>
-      (∃ b ∈ fs, unpack c.I b = some m ∧ ∃ b', pack c.I m = some b' ∧ w = wireOf c.tcp b' ∧
+      (∃ b ∈ fs, unpack c.I b = some m ∧ ∃ b', pack c.I m = some b' ∧ wireOf? c.tcp b' = some w ∧
         ∀ d, DnsRef.decode b = some d → DnsRef.decode b' = some d) ∨
-      (∃ b ∈ fc, ∃ q, unpack c.I b = some q ∧ m = servfail q ∧ ∃ b', pack c.I m = some b' ∧ w = wireOf c.tcp b')
+      (∃ b ∈ fc, ∃ q, unpack c.I b = some q ∧ m = servfail q ∧ ∃ b', pack c.I m = some b' ∧ wireOf? c.tcp b' = some w)
   | _ => True
 
 theorem SentOk.mono {c : Cfg} {fc fs fc' fs' : List Bytes} (h1 : ∀ b ∈ fc, b ∈ fc') (h2 : ∀ b ∈ fs, b ∈ fs') {o : Out}
